@@ -37,6 +37,7 @@ def run(ctx, report):
     report.section("verbatim cue settings", verbatim, ctx, report, folder)
     report.section("fallback order", fallback, ctx, report)
     report.section("default before use", default_before_use, ctx, report)
+    report.section("WebVTT option guards", webvtt_option_guards, ctx, report)
     report.section("keys and splitting", keys_and_split, ctx, report)
     report.not_decided.append("effective layout per visible character after DFXP write + read (needs the parser)")
 
@@ -352,6 +353,25 @@ def region_id_source(fn):
         ok = first is not None and texts[1] == "DFXP_DEFAULT_REGION_ID" and guards in ([f"not ({rid})"], [f"{rid} is None"])
         return ok, {"assignments": texts, "second_under": guards}
     return False, texts
+
+
+def webvtt_option_guards(ctx, report):
+    """In WebVTTWriter._convert_positioning the fit-to-screen step depends on the fit_to_screen option
+    alone (not on whether relativization happened)."""
+    fn = ctx.index.get_function(VTT, "WebVTTWriter._convert_positioning", inline=True)
+    report.covered(fn)
+    sites = [st for st in walk_no_nested(fn.node) if isinstance(st, (ast.Assign, ast.Expr)) and any(
+        isinstance(c, ast.Call) and isinstance(c.func, ast.Attribute) and c.func.attr == "fit_to_screen"
+        for c in walk_no_nested(st))]
+    if len(sites) != 1:
+        raise AnalysisError(f"_convert_positioning: fit_to_screen() call not unique ({len(sites)})")
+    guards = enclosing_conjuncts(fn, sites[0]) or []
+    lay = fn.params[1]
+    allowed = {"self.fit_to_screen", lay, f"not ({lay}.webvtt_positioning)", f"not (not {lay})"}
+    extra = [g for g in guards if g not in allowed]
+    report.check("self.fit_to_screen" in guards and not extra, "R-GUARD", (fn, sites[0]),
+                 "fit-to-screen is applied exactly when the fit_to_screen option is on (and there is a layout to fit)",
+                 {"applied_under": guards, "unexpected_conditions": extra}, "2")
 
 
 def default_before_use(ctx, report):
